@@ -3,7 +3,7 @@
    stated).  Induction over the number of trips around the loops (fuel), i.e. over every
    accept / reject history. *)
 From Model Require Import Base Rosenbrock BackwardEulerM.
-From Coq Require Import Ring.
+From Coq Require Import Ring QArith Qabs Lqa.
 Local Open Scope nat_scope.
 
 Section RosInvariants.
@@ -972,4 +972,84 @@ Section BEInvariants.
       intros _. split; reflexivity.
     Qed.
   End Conservation.
+
+  (* ---------------- C06: 0 <= final_time_ <= time_step for backward Euler in exact arithmetic ----------------
+     (same embedding phi into the ordered rationals as for the Rosenbrock theorem; premises: h_start, the reduction
+     factors and the doubling factor are not negative) *)
+  Section TimeBounds.
+    Local Open Scope Q_scope.
+    Variable phi : T -> Q.
+    Hypothesis Hadd : forall a b, phi (nadd N a b) == phi a + phi b.
+    Hypothesis Hsub : forall a b, phi (nsub N a b) == phi a - phi b.
+    Hypothesis Hmul : forall a b, phi (nmul N a b) == phi a * phi b.
+    Hypothesis Hlt : forall a b, ltb a b = true <-> phi a < phi b.
+    Hypothesis H0 : phi (n0 N) == 0.
+    Hypothesis Hstart : 0 <= phi (bp_h_start p).
+    Hypothesis Hred : forall r, In r (bp_reductions p) -> 0 <= phi r.
+    Hypothesis Htwo : 0 <= phi two.
+
+    Lemma be_ltb_false a b : ltb a b = false -> phi b <= phi a.
+    Proof.
+      intros E. destruct (Qlt_le_dec (phi a) (phi b)) as [Hl | Hl]; [|exact Hl].
+      apply Hlt in Hl. rewrite Hl in E. discriminate E.
+    Qed.
+    Lemma bmin_cases a b : (bmin N ltb a b = a /\ phi a <= phi b) \/ (bmin N ltb a b = b /\ phi b < phi a).
+    Proof.
+      unfold bmin. destruct (ltb b a) eqn:E; [right; split; [reflexivity | apply Hlt; exact E] | left; split; [reflexivity | apply be_ltb_false; exact E]].
+    Qed.
+
+    Definition btinv (ts : T) (l : be_loop_state) : Prop :=
+      (0 <= phi (b_t l) /\ phi (b_t l) <= phi ts) /\ (0 <= phi (b_H l) /\ phi (b_H l) <= phi ts - phi (b_t l)).
+
+    Lemma nth_red_nonneg k : 0 <= phi (nth k (bp_reductions p) (n0 N)).
+    Proof.
+      destruct (Nat.lt_ge_cases k (length (bp_reductions p))) as [Hk | Hk].
+      - apply Hred. apply nth_In. exact Hk.
+      - rewrite nth_overflow by exact Hk. rewrite H0. lra.
+    Qed.
+
+    Lemma be_iter_time ts l : btinv ts l ->
+      match iter ts l with
+      | inr (l', _) => btinv ts l'
+      | inl (_, t, _, _, _) => 0 <= phi t /\ phi t <= phi ts
+      end.
+    Proof.
+      intros [[Ta Tb] [Ha Hb]].
+      pose proof (nth_red_nonneg (b_nfail l)) as Rn. pose proof Htwo as Tw.
+      destruct (iter ts l) as [[[[[st t] sts] s] ev]|[l' ev]] eqn:E; unfold be_iter in E;
+        repeat match type of E with context [if ?b then _ else _] => destruct b eqn:? end;
+        inversion E; subst; clear E; unfold btinv; cbn [b_t b_H];
+        repeat match goal with |- context [bmin N ltb ?a ?b] =>
+                 let Hc := fresh "Hc" in destruct (bmin_cases a b) as [[-> Hc] | [-> Hc]] end;
+        repeat match goal with
+               | H : context [phi (nmul N _ _)] |- _ => rewrite Hmul in H
+               | H : context [phi (nsub N _ _)] |- _ => rewrite Hsub in H
+               | H : context [phi (nadd N _ _)] |- _ => rewrite Hadd in H
+               end;
+        rewrite ?Hmul, ?Hsub, ?Hadd; repeat split; try assumption; try lra; try nra.
+    Qed.
+
+    Theorem be_final_time_within_the_interval fuel time_step s :
+      0 <= phi time_step ->
+      let r := solve fuel time_step s in
+      0 <= phi (br_final_time r) /\ phi (br_final_time r) <= phi time_step.
+    Proof.
+      intros Hts. unfold be_solve. cbv zeta.
+      match goal with |- context [loop fuel time_step ?l0 []] =>
+        pose proof (be_loop_invariant time_step (fun l _ => btinv time_step l)
+                      (fun _ t _ _ _ => 0 <= phi t /\ phi t <= phi time_step)) as LI;
+        assert (S1 : forall l (tr : list be_event) l' ev, btinv time_step l -> iter time_step l = inr (l', ev) -> btinv time_step l');
+        [ intros l tr l' ev HI E; pose proof (be_iter_time time_step l HI) as X; rewrite E in X; exact X |];
+        assert (S2 : forall l (tr : list be_event) st t sts s0 ev, btinv time_step l -> iter time_step l = inl (st, t, sts, s0, ev) ->
+                       0 <= phi t /\ phi t <= phi time_step);
+        [ intros l tr st t sts s0 ev HI E; pose proof (be_iter_time time_step l HI) as X; rewrite E in X; exact X |];
+        assert (S3 : forall (l : be_loop_state) (tr : list be_event), btinv time_step l -> 0 <= phi (b_t l) /\ phi (b_t l) <= phi time_step)
+          by (intros l tr HI; exact (proj1 HI));
+        apply (LI S1 S2 S3 fuel l0 [])
+      end.
+      unfold btinv. cbn [b_t b_H]. split; [rewrite H0; split; lra|].
+      rewrite H0. destruct (is_zero (bp_h_start p)); [split; lra|].
+      destruct (bmin_cases (bp_h_start p) time_step) as [[-> Hc] | [-> Hc]]; split; lra.
+    Qed.
+  End TimeBounds.
 End BEInvariants.
